@@ -1983,6 +1983,9 @@ package hermes
 //@   define consts() = 1 <= g.N && g.N <= 20 && g.DZ.Num == 10 && g.DZ.Index == 10 && g.DT.Num == 1 && g.DT.Index == 1 && 0 <= g.OUTN && g.OUTN <= g.N && 0 <= g.DRAIFAK && g.DRAIFAK <= 1 && 1 <= g.ETMETH && g.ETMETH <= 5
 //@   define caldr() = 0-1 <= g.TAG.Index && g.TAG.Index + 1 <= g.JTAG && g.JTAG <= 366 && g.TAG.Offset == 1 && g.TAG.Num == real(g.TAG.Index + g.TAG.Offset)
 //@   define backups() = forall(z, 0, g.N, 0 < g.WMIN_Backup[z] && g.WMIN_Backup[z] < g.W_Backup[z] && g.W_Backup[z] <= g.PORGES_Backup[z] && g.PORGES_Backup[z] < 1)
+// (thickness and the offset of the day counter are established by the run's prologue: unit Run$1 below)
+//@   requires thickness: g.DZ.Num == 10 && g.DZ.Index == 10
+//@   requires offsets: g.TAG.Offset == 1
 //@   requires consts: consts()
 //@   requires calendar: caldr()
 //@   requires backup: backups()
@@ -2126,3 +2129,56 @@ package hermes
 //@   serves C08, C09
 //@   opaque dueng mineral nmove KalenderDate Denitr Denitmo
 //@   ensures[C08,C09] leafarea: old(g.LAI) >= 0 ==> g.LAI >= 0
+
+// C05  one field per configured column, binder side: EVERY configured column leaves the binding loop of
+// LoadHermesOutputConfig with a column reference - the address of the model variable, or the not-available value when the
+// name, sub-name or an array index cannot be resolved - on every path through the loop body (goto, continue). A column
+// without reference reaches the default arm of WriteLine and contributes no field. What the reflect calls return is
+// arbitrary for the verifier; only the control flow of the loop body is decided here.
+//@ region LoadHermesOutputConfig#bind from "dataCol := &outConfig.DataColumns[i]" to "$end"
+//@   serves C05
+//@   ghost var bound bool = false
+//@   after stmt "dataCol.valueRef = f.Addr().Interface()": ghost bound = true
+//@   after stmt "dataCol.valueRef = outConfig.NotAvailableValue": ghost bound = true
+//@   exit-ensures everycolumn: bound
+
+// The fresh run state: layer thickness 10 cm, time step 1 day (both as number and as index), day counter and crop cursor
+// with offset 1, wind measurement height 2 m, leaf area 0 - the part of the day loop's entry assumptions that does not
+// come from input files.
+//@ func NewGlobalVarsMain
+//@   serves C01, C02, C06, C08
+//@   ensures units: result0.DZ.Num == 10 && result0.DZ.Index == 10 && result0.DT.Num == 1 && result0.DT.Index == 1
+//@   ensures cursors: result0.TAG.Offset == 1 && result0.AKF.Offset == 1 && result0.AKF.Index == 0 && result0.INTWICK.Offset == 1 && result0.DT.Offset == 0
+//@   ensures site: result0.WINDHI == 2 && result0.LAI == 0 && result0.N == 20
+
+// From the fresh run state to the day loop: nothing between the creation of the run state and the day loop (configuration,
+// Input, the first weather year, Init, the output configurations) writes the layer thickness or the time step, so the day
+// loop starts with the units every kernel requires (Run$1#dayglue/requires consts, units part). Callees by their inferred
+// write sets.
+//@ region HermesSession.Run$1#prologue from "g := NewGlobalVarsMain()" before "for ZEIT := g.BEGINN; ZEIT <= g.ENDE; ZEIT = ZEIT + g.DT.Index {"
+//@   serves C01, C02, C06, C08
+//@   opaque readConfig Input Init LoadYear WetterK ReadWeatherCSV ReadWeatherCZ verdun KalenderDate DateConverter$1 KalenderConverter$1 LoadManagementConfig ParseCropOverwrites NewHermesFilePath
+//@   ensures thickness: g.DZ.Num == 10 && g.DZ.Index == 10
+//@   ensures offsets: g.TAG.Offset == 1 && g.AKF.Offset == 1 && g.DT.Offset == 0
+
+// The column binder receives the run state as interface{} and walks it by reflection: it takes ADDRESSES of model
+// variables (read later by WriteLine) and writes none of them. Frame ASSUMED (reflect is outside the verifier; listed).
+//@ func LoadHermesOutputConfig
+//@   serves C01, C02, C06, C08
+//@   trusted
+//@   modifies nothing
+
+// the time step of a run is one day: set by Input (whole-function verification of Input costs minutes of write-set
+// fixpoints, so the day loop's `DT == 1` stays an entry assumption there; the statement that sets it is pinned here)
+//@ region Input#timestep from "g.DT.SetByIndex(1)" to "g.DT.SetByIndex(1)"
+//@   serves C01, C02, C06, C08
+//@   requires offset: g.DT.Offset == 0
+//@   ensures oneday: g.DT.Index == 1 && g.DT.Num == 1
+
+// The run body as a whole: the prologue's postconditions are what the day loop's composition unit requires of the layer
+// thickness and the day counter's offset (both units used modularly: this unit only checks that they fit together).
+//@ func HermesSession.Run$1
+//@   serves C01, C02, C06, C08
+//@   uses HermesSession.Run$1#prologue
+//@   uses HermesSession.Run$1#dayglue: thickness offsets
+//@   opaque FinalDungPrognose progout
